@@ -1420,8 +1420,15 @@ func (ls *LState) NewThread() (*LState, context.CancelFunc) {
 	thread.Env = ls.Env
 	var f context.CancelFunc = nil
 	if ls.ctx != nil {
+		// A thread cancels its own context when it dies.  The threads it created must
+		// outlive it, so they are derived from the context it inherited, not from its own.
+		base := ls.ctx
+		if ls.ctxBase != nil {
+			base = ls.ctxBase
+		}
 		thread.mainLoop = mainLoopWithContext
-		thread.ctx, f = context.WithCancel(ls.ctx)
+		thread.ctxBase = base
+		thread.ctx, f = context.WithCancel(base)
 		thread.ctxCancelFn = f
 	}
 	return thread, f
@@ -2076,6 +2083,7 @@ func (ls *LState) SetMx(mx int) {
 func (ls *LState) SetContext(ctx context.Context) {
 	ls.mainLoop = mainLoopWithContext
 	ls.ctx = ctx
+	ls.ctxBase = nil
 }
 
 // Context returns the LState's context. To change the context, use WithContext.
@@ -2088,6 +2096,7 @@ func (ls *LState) RemoveContext() context.Context {
 	oldctx := ls.ctx
 	ls.mainLoop = mainLoop
 	ls.ctx = nil
+	ls.ctxBase = nil
 	return oldctx
 }
 
